@@ -189,6 +189,11 @@ def set_edge(op, c1, c2, data):
         op.add_side_edge(lo, data)
 
 
+def pair_key(na, nb):
+    """'n1-n2' with integer lattice nodes in numeric order (renamed slave copies of a merged pair are strings: last)"""
+    return "-".join(str(n) for n in sorted((na, nb), key=lambda n: (1, 0, n) if isinstance(n, str) else (0, n, "")))
+
+
 def build_ops(case, cb):
     """classy_blocks operations for the case, in insertion order (the real library).
     case["arcs"] (optional): {"n1-n2": third point} circular-arc edges on lattice edges, defined by every block that uses them"""
@@ -200,7 +205,7 @@ def build_ops(case, cb):
         for e in hexconv.EDGES:
             if not arcs:
                 break
-            key = "-".join(str(n) for n in sorted((blk["nodes"][e[0]], blk["nodes"][e[1]]), key=str))
+            key = pair_key(blk["nodes"][e[0]], blk["nodes"][e[1]])
             if key in arcs:
                 set_edge(op, e[0], e[1], cb.Arc(list(arcs[key])))
         for axis, kw in blk["chops"]:
